@@ -23,6 +23,17 @@ Fixpoint w_eqb (a b : list nat) : bool :=
 Definition emit_class (cl : list nat) : list nat :=
   if w_eqb cl w_punct_name then w_punct_list else if w_eqb cl w_digit_name then w_digit_list else c_lb :: cl.
 
+(* "[.x.]" / "[=x=]" inside a bracket expression, x a character with no meaning of its own there: (x, what follows) *)
+Definition c_dot := 46.  Definition c_eq := 61.  Definition c_minus := 45.
+Definition ordinary (x : nat) : bool :=
+  negb ((x =? c_rb) || (x =? c_caret) || (x =? c_minus) || (x =? c_lb) || (x =? c_bs) || (x =? c_colon)).
+Definition coll_at (d x e r : nat) : bool := ((d =? c_dot) || (d =? c_eq)) && (e =? d) && (r =? c_rb) && ordinary x.
+Definition coll (s : list nat) : option (nat * list nat) :=
+  match s with
+  | d :: x :: e :: r :: s'' => if coll_at d x e r then Some (x, s'') else None
+  | _ => None
+  end.
+
 Inductive wst :=
 | WT (after_ref : bool)          (* outside brackets; after_ref: a back-reference has just been written *)
 | WE                             (* after a backslash *)
@@ -52,12 +63,20 @@ Fixpoint wrap (ext cls nl : bool) (q : wst) (depth : nat) (s : list nat) : list 
         else if mr && (c =? c_rb) then c :: wrap ext cls nl (WB false false) depth s'
         else if c =? c_rb then c :: wrap ext cls nl (WT false) depth s'
         else if c =? c_lb then
+          let other :=
           if cls then
             match s' with
             | d :: s'' => if d =? c_colon then wrap ext cls nl (WC [d]) depth s'' else c :: wrap ext cls nl (WB false false) depth s'
             | [] => c :: wrap ext cls nl (WB false false) depth s'
             end
           else c :: wrap ext cls nl (WB false false) depth s'      (* emacs: no character classes, "[" is a member *)
+          in
+          match s' with
+          | d :: x :: e :: r :: s'' =>
+              (* the engine has no collating symbols: "[.x.]" is written as the character it names *)
+              if coll_at d x e r then x :: wrap ext cls nl (WB false false) depth s'' else other
+          | _ => other
+          end
         else c :: wrap ext cls nl (WB false false) depth s'
     | WC acc =>
         if c =? c_rb then emit_class (acc ++ [c]) ++ wrap ext cls nl (WB false false) depth s'
@@ -65,8 +84,55 @@ Fixpoint wrap (ext cls nl : bool) (q : wst) (depth : nat) (s : list nat) : list 
     end
   end.
 
-(* ext: posix-extended; cls: the syntax has character classes (all but emacs); nl: a newline is alternation (grep) *)
-Definition inside_group (ext cls nl : bool) (pattern : list nat) : list nat := wrap ext cls nl (WT false) 0 pattern.
+(* ---- spell_basic_operators: in grep and posix-basic syntax the operators are written with a backslash and are operators only
+   where there is something to repeat.  [gb] (grep): "\{" with nothing to repeat - at the start of the pattern, of a group or of
+   an alternative, also behind the "^" anchoring it - is written as the brace it is.  [pq] (posix-basic): "\+" and "\?" behind
+   something to repeat are written as the intervals "\{1,\}" and "\{0,1\}" (the engine's posix-basic has no such operators).
+   One pass; the states are: outside (with: nothing to repeat here), after a backslash, inside a bracket expression, inside
+   "[:" / "[." / "[=" up to its ":]" / ".]" / "=]", inside an interval up to its "\}". ---- *)
+Definition c_lbrace := 123.  Definition c_rbrace := 125.  Definition c_plus := 43.  Definition c_qm := 63.
+Inductive pst := PT (start : bool) | PE (start : bool) | PB (may_caret may_rb : bool) | PK (d : nat) (prev : bool) | PI (prev_bs : bool).
+Fixpoint pre (gb pq nl : bool) (q : pst) (s : list nat) : list nat :=
+  match s with
+  | [] => match q with PE _ => [c_bs] | _ => [] end
+  | c :: s' =>
+    match q with
+    | PT st =>
+        if c =? c_bs then pre gb pq nl (PE st) s'
+        else if c =? c_lb then c :: pre gb pq nl (PB true true) s'
+        else if nl && (c =? c_nl) then c :: pre gb pq nl (PT true) s'
+        else if st && (c =? c_caret) then c :: pre gb pq nl (PT true) s'
+        else c :: pre gb pq nl (PT false) s'
+    | PE st =>
+        if (c =? c_lp) || (c =? c_bar) then c_bs :: c :: pre gb pq nl (PT true) s'
+        else if c =? c_lbrace then
+          if st then (if gb then [c] else [c_bs; c]) ++ pre gb pq nl (PT false) s'
+          else c_bs :: c :: pre gb pq nl (PI false) s'
+        else if pq && negb st && (c =? c_plus) then [c_bs; c_lbrace; 49; 44; c_bs; c_rbrace] ++ pre gb pq nl (PT false) s'
+        else if pq && negb st && (c =? c_qm) then [c_bs; c_lbrace; 48; 44; 49; c_bs; c_rbrace] ++ pre gb pq nl (PT false) s'
+        else c_bs :: c :: pre gb pq nl (PT false) s'
+    | PB mc mr =>
+        if mc && (c =? c_caret) then c :: pre gb pq nl (PB false true) s'
+        else if mr && (c =? c_rb) then c :: pre gb pq nl (PB false false) s'
+        else if c =? c_rb then c :: pre gb pq nl (PT false) s'
+        else if c =? c_lb then
+          match s' with
+          | d :: s'' => if (d =? c_colon) || (d =? c_dot) || (d =? c_eq) then c :: d :: pre gb pq nl (PK d false) s''
+                        else c :: pre gb pq nl (PB false false) s'
+          | [] => [c]
+          end
+        else c :: pre gb pq nl (PB false false) s'
+    | PK d prev => if prev && (c =? c_rb) then c :: pre gb pq nl (PB false false) s' else c :: pre gb pq nl (PK d (c =? d)) s'
+    | PI prev => if prev && (c =? c_rbrace) then c :: pre gb pq nl (PT false) s' else c :: pre gb pq nl (PI (c =? c_bs)) s'
+    end
+  end.
+Definition spell (gb pq nl : bool) (pattern : list nat) : list nat :=
+  if gb || pq then pre gb pq nl (PT true) pattern else pattern.
+
+(* ext: posix-extended; cls: the syntax has character classes (all but emacs); nl: a newline is alternation (grep);
+   gb: grep's brace; pq: posix-basic's "\+" and "\?" *)
+Definition inside_group (ext cls nl gb pq : bool) (pattern : list nat) : list nat :=
+  wrap ext cls nl (WT false) 0 (spell gb pq nl pattern).
 
 (* ---- how the text is read back: where groups open and close (POSIX extended).  A backslash takes the next character with it;
    a bracket expression runs from "[" (then "^" and "]" as members) to the next "]", a "[:" inside it to the next "]".
